@@ -1503,7 +1503,9 @@ class ReceivePackHandler(PackHandler):
                     max_input_size=self._receive_max_input_size(),
                 )
                 yield (b"unpack", b"ok")
-            except all_exceptions as e:
+            except (*all_exceptions, FileLocked) as e:
+                # FileLocked: another push is installing a pack of the same
+                # name (the same objects) right now.
                 yield (b"unpack", str(e).replace("\n", "").encode("utf-8"))
                 # The pack may still have been moved in, but it may contain
                 # broken objects. We trust a later GC to clean it up.
